@@ -2,7 +2,7 @@
 From Coq Require Import List ZArith Bool.
 From LJT Require Import model.Huff gen.GenParams model.CParams proofs.CParamsHoare proofs.CParamsTj
   proofs.CParamsScript proofs.CParamsChain proofs.CParamsSetup proofs.CParamsBlock proofs.CParamsMaster
-  proofs.CParamsPasses proofs.CParamsSimd proofs.CParamsExamples lib.Sweep model.CProgScript proofs.CProgScriptProofs.
+  proofs.CParamsPasses proofs.CParamsSimd proofs.CParamsExamples lib.Sweep model.CProgScript proofs.CProgScriptProofs model.CRestart proofs.CRestartProofs.
 Import ListNotations.
 Local Open Scope Z_scope.
 
@@ -147,6 +147,20 @@ Theorem C17_simple_progression_accepted : forall n ycc, 1 <= n <= g_MAX_COMPONEN
   snd (validate_script n 12 (simple_progression n ycc)) = inr Progressive.
 Proof. exact simple_progression_accepted_lemma. Qed.
 Print Assumptions C17_simple_progression_accepted.
+
+(* restart markers in multi-scan files: per_scan_setup recomputes the interval for every scan; with the DRI
+   rule of write_scan_header (generated from jcmarker.c) the interval in force at every SOS (last DRI written,
+   none = 0) equals the interval the scan is encoded with, for EVERY sequence of per-scan intervals *)
+Theorem C17_dri_in_force : forall intervals last, dri_run last last intervals = true.
+Proof. exact dri_in_force_lemma. Qed.
+Print Assumptions C17_dri_in_force.
+
+(* raw-data input: with the row accounting of jpeg_write_raw_data (generated from jcapistd.c) the documented
+   caller loop encodes every iMCU row of the image, whatever num_lines >= lines_per_iMCU_row is offered *)
+Theorem C17_raw_rows_complete : forall height lines num_lines, 1 <= height -> 0 < lines ->
+  raw_loop (Z.to_nat height + 1) 0 height lines num_lines = Some (jdiv_round_up height lines).
+Proof. exact raw_rows_complete_lemma. Qed.
+Print Assumptions C17_raw_rows_complete.
 
 (* (6) stream completeness, as far as the model carries it: the pass loop of the master terminates for every
    scan count / optimisation setting / set of DC refinement scans, writes SOI first, every scan's data exactly
